@@ -80,7 +80,7 @@ def cases(tier, seed, rnd):
     return cs
 
 
-ATOMS = ['A', 'M', 'I', 'E', 'S', 'Q', 'X', 'L', 'F', 'P', 'T2', 'T3', 'T32']
+ATOMS = ['A', 'M', 'I', 'E', 'S', 'Q', 'X', 'L', 'F', 'P', 'T2', 'T3', 'T32', 'PX', 'PL']
 
 
 def run_case(case, ses):
@@ -254,7 +254,16 @@ def run_call(case, ses):
         for k, z in enumerate(ctx.rvars):
             if k % 2 == 0:
                 vals = np.array([rnd.choice([-1.5, -1, 0.5, 1, 2]) for _ in range(z.size)]).reshape(z.shape)
-                assigns.append(z.assign(vals))
+                if len(z.shape) == 1 and z.size >= 2 and rnd.random() < 0.5:
+                    # the realisation is given for a SLICE only: the other components stay at zero
+                    vals = np.array(vals, dtype=float)
+                    vals[0] = 0.0
+                    try:
+                        assigns.append(z[1:].assign(vals[1:]))
+                    except Exception:
+                        assigns.append(z.assign(vals))       # slices may be refused: give the whole array instead
+                else:
+                    assigns.append(z.assign(vals))
                 for j, v in enumerate(np.array(vals).reshape(-1)):
                     zvals['Z[%d]' % (z.first + j)] = Fraction(float(v))
         for j in range(c05.NZ):
@@ -307,16 +316,23 @@ def atom_build(rso, m, x, atom):
         return rso.power(e, 3), ('power', (3, 1))
     if atom == 'T32':
         return rso.power(e, 3, 2), ('power', (3, 2))
+    if atom == 'PX':
+        return rso.pexp(e, 2.0), ('pexp', 2.0)
+    if atom == 'PL':
+        return rso.plog(e, 2.0), ('plog', 2.0)
     raise HarnessError(atom)
 
 
-POS_ATOMS = ('L', 'P')       # need a positive argument
+POS_ATOMS = ('L', 'P', 'PL')       # need a positive argument
 
 
 def oracle_value(kind, params, args, env, z3):
     """z3 terms of phi(args) by definition (EXP/LOG uninterpreted, shared with the concolic run)."""
-    if kind in ('exp', 'log', 'softplus', 'entropy'):
+    if kind in ('exp', 'log', 'softplus', 'entropy', 'pexp', 'plog'):
         EXP, LOG = cc.ufun('EXP'), cc.ufun('LOG')
+        if kind in ('pexp', 'plog'):
+            sc = z3.RealVal(str(Fraction(float(params))))
+            return [sc * (EXP if kind == 'pexp' else LOG)(t / sc) for t in args]
         if kind == 'exp':
             return [EXP(t) for t in args]
         if kind == 'log':
@@ -369,13 +385,11 @@ def run_atom(case, ses):
         assume += [xs[j] >= -4, xs[j] <= 4]
     if atom in POS_ATOMS or atom == 'T32':
         assume += [t >= z3.RealVal('1/8') for t in args]
-    if atom == 'T3':
-        assume += [t >= 0 for t in args]
 
     def make_inputs(model):
         vec = np.empty(n, dtype=object)
         for j in range(n):
-            vec[j] = cc.cv_from_model(model, xs[j], as_float=atom in ('E', 'X', 'L', 'F', 'P', 'T32'))
+            vec[j] = cc.cv_from_model(model, xs[j], as_float=atom in ('E', 'X', 'L', 'F', 'P', 'T32', 'PX', 'PL'))
         return vec
 
     def fn(vec):
@@ -604,13 +618,51 @@ def run_dro(case, ses):
                 m.solution = sol
                 m.ro_model.solution = sol
                 m.ro_model.rc_model.solution = sol
+            # a convex function of a STATIC decision plus an event-wise one, evaluated with a concrete solution vector:
+            # one value per scenario
+            if not adaptive and nevents > 1:
+                sent = (np.arange(n, dtype=float) % 7) - 2.5
+                sol3 = Solution('concrete', 0.0, sent, 0, 0.0)
+                m.solution = sol3
+                m.ro_model.solution = sol3
+                m.ro_model.rc_model.solution = sol3
+                ses.stats.obligations += 1
+                ses.stats.kinds['dro-convex-call(concrete)'] = ses.stats.kinds.get('dro-convex-call(concrete)', 0) + 1
+                try:
+                    cv = (abs(w - 3.0) + x[1])()
+                    okv = isinstance(cv, pd.Series) and list(cv.index) == lab
+                    for s in range(ns):
+                        rs = rules[s]
+                        col_w = onehot_cols(rs[w.first:w.first + 1])[0]
+                        col_x = onehot_cols(rs[x.first + 1:x.first + 2])[0]
+                        okv = okv and abs(float(cv.loc[lab[s]]) - (abs(sent[col_w] - 3.0) + sent[col_x])) < 1e-9
+                except Exception:
+                    okv = None
+                if okv is None:
+                    ses.stats.kinds['call-raises'] = ses.stats.kinds.get('call-raises', 0) + 1
+                    ses.stats.obligations -= 1
+                elif okv:
+                    ses.stats.discharged += 1
+                else:
+                    report(ses, 'dro.convex-call', '%s: (abs(w - 3) + x[1])() does not return, per scenario, |w - 3| + x[1] of that '
+                           'scenario (got %s)' % (label, cv), dict(k='dro', case=case, seq=seq))
+                m.solution = sol
+                m.ro_model.solution = sol
+                m.ro_model.rc_model.solution = sol
             # affine expression call per scenario (symbolic solution, realisation assigned)
             expr = 2.0 * x[1] - w + 0.5
+            # ... and a bi-affine expression whose AFFINE part contains the adaptive entry: w*z0 + x0(z)
+            expr2 = w * z[0] + x[0]
             try:
                 val = expr(z.assign(np.array([0.5, -1.0])))
             except Exception as e:
                 ses.stats.kinds['call-raises'] = ses.stats.kinds.get('call-raises', 0) + 1
                 continue
+            try:
+                val2 = expr2(z.assign(np.array([0.5, -1.0])))
+            except Exception as e:
+                val2 = None
+                ses.stats.kinds['call-raises'] = ses.stats.kinds.get('call-raises', 0) + 1
             for s in range(ns):
                 rs = rules[s]
                 if isinstance(rs, RoAffine):
@@ -627,6 +679,14 @@ def run_dro(case, ses):
                     report(ses, 'dro.call', '%s: expression call in scenario %r %s' % (label, lab[s], bad[1]),
                            dict(k='dro', case=case, seq=seq))
                     break
+                if val2 is not None:
+                    want2 = 0.5 * xs_[w.first] + xs_[x.first]
+                    g2 = val2.loc[lab[s]] if isinstance(val2, pd.Series) else val2
+                    bad = decide_equal(ses, '%s/call2/s%d' % (label, s), g2, want2, 'dro-expression-call')
+                    if bad:
+                        report(ses, 'dro.call-biaffine', '%s: (w*z0 + x0)(z=...) in scenario %r %s' % (label, lab[s], bad[1]),
+                               dict(k='dro', case=case, seq=seq))
+                        break
 
 
 # ------------------------------------------------------------------ (f) objective
